@@ -63,7 +63,7 @@ def judge(case, ctx):
 def run_shard(spec, rng, ctx):
     end = C.budget(spec)
     i = 0
-    while i < spec["max_cases"] and time.time() < end:
+    while i < spec["max_cases"] and C.now() < end:
         judge(C.draw_cover_case(rng, alg=C.COVERERS[i % 3]), ctx)
         i += 1
 
